@@ -64,7 +64,9 @@ def parse(ans):
         ncrit = int(f[6 + n])
         fv, dx = f[7 + n], f[8 + n]
         d = {"conv": conv, "x": x, "i": i, "n": n, "args": args, "ncrit": ncrit, "fv": fv, "dx": dx}
-        if side:
+        if side.startswith("br"):
+            d["brs"] = side.split()[1:]
+        elif side:
             g = side.split()
             d["ctrue"] = int(g[0].split("=")[1])
             d["cx"] = g[1].split("=")[1]
@@ -302,6 +304,18 @@ def run(ck):
             continue
         if not same:
             disagreements += 1
+        if ok and not same and d is not None and m is not None:
+            # first call on which the two sides differ: up to there they saw the same history, so the
+            # implementation holds the bracket the model records for that call
+            brs = m.get("brs", [])
+            for j in range(min(len(d["args"]), len(m["args"]))):
+                if cz(d["args"][j]) != cz(m["args"][j]):
+                    if j < len(brs) and brs[j] != "-":
+                        lo, hi = [dbl(t) for t in brs[j].split(":")]
+                        a = dbl(d["args"][j])
+                        if not (lo <= a <= hi):
+                            ok, why = False, "(c) after %d identical calls the algorithm brackets a root in [%r, %r] but evaluates the function at %r" % (j, lo, hi, a)
+                    break
         kind = why.split(")")[0].strip("(") if why.startswith("(") else "format"
         found = not ok
         key = "%s:%s" % (SITE, kind if found else "trace")
